@@ -578,6 +578,31 @@ public:
     }
   }
 
+  bool flattenInit(const Expr *E, std::ostringstream &o, bool &first, unsigned &count) {
+    E = E->IgnoreParenImpCasts();
+    if (const auto *IL = dyn_cast<InitListExpr>(E)) {
+      const InitListExpr *Sem = IL->isSemanticForm() ? IL : (IL->getSemanticForm() ? IL->getSemanticForm() : IL);
+      for (const Expr *C : Sem->inits())
+        if (!flattenInit(C, o, first, count))
+          return false;
+      if (Sem->hasArrayFiller())
+        return false;
+      return true;
+    }
+    Expr::EvalResult R;
+    if (E->getType()->isIntegralOrEnumerationType() && E->EvaluateAsInt(R, Ctx)) {
+      if (!first)
+        o << ",";
+      first = false;
+      llvm::SmallString<40> sv;
+      R.Val.getInt().toString(sv, 10);
+      o << sv.str().str();
+      count++;
+      return true;
+    }
+    return false;
+  }
+
   void doGlobal(const VarDecl *VD) {
     if (inSystem(VD->getLocation()) || !VD->isFileVarDecl())
       return;
@@ -600,13 +625,12 @@ public:
     if (VD->hasInit()) {
       const Expr *I = VD->getInit();
       if (VD->getType()->isArrayType() && Ctx.getBaseElementType(VD->getType())->isIntegerType()) {
-        if (const APValue *V = VD->evaluateValue()) {
-          std::ostringstream o;
-          bool first = true;
-          unsigned count = 0;
-          flatten(*V, o, first, count);
+        std::ostringstream o;
+        bool first = true;
+        unsigned count = 0;
+        bool ok = flattenInit(I, o, first, count);
+        if (ok)
           globs << ",\"ints\":[" << o.str() << "]";
-        }
       } else {
         ids.clear();
         localIds.clear();
